@@ -14,6 +14,8 @@ package js_ast
 //@ func ToInt32
 //@   arith bv
 //@   prop C03 C06
+//@   witness f: f
+//@   opt replay toint32
 //@   ensures spec: result == jsToInt32(f)
 
 //@ func ToUint32
